@@ -4,6 +4,7 @@ import rules_life
 import rules_layer
 import rules_guard
 import rules_orphan
+import rules_own
 
 
 class Context:
@@ -52,6 +53,18 @@ STRUCTURAL = ("exact static rule check over all paths of the enumerated function
               "decides the named structural clauses (necessary conditions), not the behaviour itself")
 
 PROPS = {
+    "C06": {
+        "title": "Node lifetime: reference counts are exact, nothing dangles, nothing leaks",
+        "rules": [rules_own.rule_own, callers_for("C06")],
+        "explanation": STRUCTURAL + ". C06: link/unlink discipline — on every non-throwing path of every analysed function each node_handle reference is created, moved into exactly one owner and released exactly once; "
+                       "nodes die and handles are recycled only from the last-unlink/last-uncache state machine.",
+        "assumptions": ["values flowing through arrays/containers are untracked (possible miss, never an alarm)", "throwing paths are exempt (C06 excludes error paths)",
+                        "slot-level primitives createReducedNode/deleteNode/linkAllDown are the trusted base", "counter-width arithmetic is covered only by the sibling-agreement rule"],
+        "technique": "ownership (linear) typing of node handles by path-sensitive dataflow over clang CFGs, with a summary table of MEDDLY's API; who-may-call tables",
+        "level_text": "exact static rule check: ownership typing of every node_handle local/parameter in the armed files (all template instantiations), all non-throwing paths; decides the link/unlink discipline, not run-time counts",
+        "design_ref": "DESIGN.md §2.1, §3 C06",
+        "level_note": "trusts clang 14 CFGs, the ownership summary table in tool/msa/own.cc and the slot-level primitives createReducedNode/deleteNode",
+    },
     "C13": {
         "title": "Variable reordering preserves every function and every held edge",
         "rules": [callers_for("C13"), on_program(rules_layer.rule_cache_before_rewrite), on_program(rules_layer.rule_exchange_once)],
@@ -75,7 +88,9 @@ PROPS = {
     },
     "C16": {
         "title": "Misuse is rejected with the documented error and leaves all functions intact",
-        "rules": [on_program(r) for r in rules_guard.RULES] + [rules_orphan.rule_orphan, rules_orphan.rule_iterator_init],
+        "rules": [on_program(r) for r in rules_guard.RULES] + [rules_orphan.rule_orphan, rules_orphan.rule_iterator_init,
+                  # "use of an edge whose forest was destroyed raises an error" rests on the registry discipline
+                  on_program(rules_life.rule_forest_dtor), on_program(rules_life.rule_unregister), on_program(rules_life.rule_registry)],
         "explanation": STRUCTURAL + ". C16: every misuse named by the property has a check that dominates the dangerous use and throws the documented code: constructor-chain "
                        "domain/shape checks, zero-divisor and infinity tests, terminal overflow, value type, null operation, exhausted iterator.",
         "assumptions": ["state after an error thrown mid-recursion (partially built results) is not decided", "only the enumerated entry points and partial operations are covered"],
